@@ -72,6 +72,9 @@ func hx(b []byte) string {
 	return "k:" + hex.EncodeToString(crypto.Keccak256(b))
 }
 
+// Hx is the exported form of the byte-string projection used in events and dumps.
+func Hx(b []byte) string { return hx(b) }
+
 func bigStr(v *big.Int) string {
 	if v == nil {
 		return "nil"
